@@ -5,6 +5,11 @@ Monitors:
  (a) every live frozen instance is snapshotted around every operation and must never change;
  (b) assignment, deletion and _inplace=True helper calls on a frozen instance must raise
      FrozenInstanceError (and, by (a), change nothing);
+ (a') the same for copies a frozen instance hands out while it is still being constructed (taken by a
+     __post_init__ hook with deepcopy / a copy-on-write helper): they are complete frozen instances, so they
+     join the live instances, and a battery of writes (assignment, deletion, in-place with_/update) is run
+     against each and must be rejected; instances built by a subclass's hand-written constructor that
+     forwards to the generated one are part of the class pool;
  (c) twin differential: every generated module is materialised twice - as declared (frozen) and with
      the frozen flag removed - and the same operations are run on both from equal states. Every
      copy-on-write operation must have the same outcome class and an alpha-equal result on both, the
@@ -39,7 +44,8 @@ ASSUMPTIONS = [
 
 def GATES(tier):
     return [("ops_judged", 500), ("twin_results_compared", 200), ("inplace_attempts_judged", 100), ("frozen_snapshots_compared", 500),
-            ("mode:frozen_class", 100), ("mode:frozen_child", 100), ("cls_kind:spec_sub", 10), ("cls_kind:plain_sub", 10)] + [(f"kind:{hk}", 3) for hk in dr.HELPER_KINDS]
+            ("mode:frozen_class", 100), ("mode:frozen_child", 100), ("cls_kind:spec_sub", 10), ("cls_kind:plain_sub", 10),
+            ("window_copies_attacked", 20), ("window_copy_writes_judged", 100), ("delegating_init_constructions", 10)] + [(f"kind:{hk}", 3) for hk in dr.HELPER_KINDS]
 
 
 def strip_frozen(decl):
@@ -69,6 +75,37 @@ def frozen_instances(world, insts, mode):
     return roots
 
 
+def attack_frozen(ctx, world, rng, obj, feats, case, details, FrozenInstanceError):
+    """Writes that certainly store something: each must raise FrozenInstanceError and leave `obj` as it was."""
+    cname = dr.class_name(world, obj)
+    attrs = world.decl.attrs_of(cname)
+    ops = []
+    for n in rng.sample(list(attrs), min(len(attrs), 3)):
+        r_ = cg.conf_recipe(attrs[n][1].tk, rng)
+        ops.append({"kind": "setattr", "target": 0, "attr": n, "value": r_, "args": [r_]})
+        if n in obj.__dict__:
+            ops.append({"kind": "delattr", "target": 0, "attr": n})
+    for hk in ("with", "update", "with_item"):
+        op = dr.gen_helper(world, rng, [obj], 0, hkind=hk, validity="valid", inplace=True)
+        op["kwargs"].pop("_if", None)
+        if op["hkind"] == hk:
+            ops.append(op)
+    for op in ops:
+        before = snap({"obj": obj})
+        st = dr.execute(world, [obj], op, scopes=(), saturate=False)
+        after = snap({"obj": obj})
+        ctx.count("window_copy_writes_judged")
+        f = dict(feats, write=op.get("hkind", op["kind"]))
+        if before != after:
+            ctx.violation("frozen_instance_unchanged", f"[{feats['mode']}] {dr.op_src(op)} on a copy taken ({feats['copy_taken_by']}) while its original was being constructed "
+                          f"({outcome_class(st)}) changed that frozen instance: {before.diff(after, 3)}", features=f, case=case, **details)
+            return
+        if not (st.outcome == "raised" and isinstance(st.exc, FrozenInstanceError)):
+            ctx.violation("inplace_on_frozen_rejected", f"[{feats['mode']}] {dr.op_src(op)} on a copy taken ({feats['copy_taken_by']}) while its original was being constructed: "
+                          f"{outcome_class(st)}; expected FrozenInstanceError", features=f, case=case, **details)
+            return
+
+
 def outcome_class(step):
     return "returned" if step.outcome == "returned" else f"raised:{type(step.exc).__name__}"
 
@@ -79,16 +116,38 @@ def run(ctx, params):
     rng = ctx.rng
     for ci in range(params["cases"]):
         mode = "frozen_class" if rng.random() < 0.6 else "frozen_child"
-        profile = {"frozen": mode == "frozen_class", "dnc_attrs": False}
+        profile = {"frozen": mode == "frozen_class", "dnc_attrs": False, "delegating_init": 0.35 if mode == "frozen_class" else 0}
         if mode == "frozen_child":
             profile["require"] = [rng.choice(["leaf", "lleaf", "dleaf"])]
         decl = cg.gen_module(rng, profile)
         if mode == "frozen_child":
             decl.leaf_frozen = True
+        window_copies = mode == "frozen_class" and rng.random() < 0.4
+        if window_copies:
+            decl.classes[0].post_init = True
         twin_decl = strip_frozen(decl)
         A, B = cg.World(decl), cg.World(twin_decl)
+        captured = []
+        if window_copies:
+            how = rng.choice(["deepcopy", "with", "update"])
+
+            def grab(label, obj, how=how):
+                """Runs inside __post_init__: take a copy of the instance under construction."""
+                if obj is None or len(captured) >= 3:
+                    return
+                present = [n for n in A.decl.attrs_of(dr.class_name(A, obj) or "M") if n in obj.__dict__]
+                if how == "deepcopy" or not present:
+                    c = copy.deepcopy(obj)
+                elif how == "with":
+                    c = getattr(obj, f"with_{present[0]}")(copy.deepcopy(obj.__dict__[present[0]]))
+                else:
+                    c = obj.update(**{present[-1]: copy.deepcopy(obj.__dict__[present[-1]])})
+                captured.append((how, c))
+
+            A.probe.actions.append(("post_init:", grab))
         try:
             ia, ib, history = [], [], []
+            extra_frozen = []  # copies handed out during construction: (how, instance)
             diverged = False
             for step_i in range(params["ops_per_case"]):
                 case = [params.get("shard"), ci, step_i]
@@ -108,6 +167,8 @@ def run(ctx, params):
                             op["hkind"], op["form"], op["inplace"] = "construct", "kwargs", False
                 inplace_on_frozen = mode == "frozen_class" and op.get("inplace") and op["kind"] != "construct" and op.get("kwargs", {}).get("_if", True) is not False
                 roots = frozen_instances(A, ia, mode)
+                for k, (_how, c) in enumerate(extra_frozen):
+                    roots[f"window_copy{k}"] = c
                 dr.saturate_caches(A, ia)
                 dr.saturate_caches(B, ib)
                 before = snap(roots)
@@ -126,6 +187,17 @@ def run(ctx, params):
                 feats.update(shape)
                 ctx.sig(mode, feats["hkind"], feats["form"], feats["inplace"], feats["outcome"], feats["attr_kind"], shape.get("cls_kind"), shape.get("lazy"))
                 details = dict(history=dr.describe_history(history), source=A.source[-1600:])
+                if op["kind"] == "construct" and shape.get("delegating_init"):
+                    ctx.count("delegating_init_constructions")
+                # (a') copies taken inside the construction window are frozen instances like any other
+                while captured:
+                    how, c = captured.pop(0)
+                    if dr.class_name(A, c) is None:
+                        continue
+                    ctx.count("window_copies_attacked")
+                    if len(extra_frozen) < 4:
+                        extra_frozen.append((how, c))
+                    attack_frozen(ctx, A, rng, c, dict(feats, copy_taken_by=how, hkind="window_copy"), case, details, FrozenInstanceError)
                 # (a) immutability of every frozen instance
                 ctx.count("frozen_snapshots_compared")
                 if before != after:
